@@ -1,5 +1,8 @@
 import M3d.Lemmas.Triangulate
 import M3d.Lemmas.TriCert
+import M3d.Lemmas.TriMore
+import M3d.Lemmas.TriProfile
+import M3d.Lemmas.Surface
 /-!
 # C14 — triangulation covers the polygon exactly
 
@@ -97,5 +100,140 @@ cancel in pairs. -/
 theorem glued_boundary_sum {B E : List Edge} (h : Glued B E) (f : Edge → K)
     (hf : ∀ e, f (swap e) = -f e) : sumF f E = sumF f B :=
   glued_sum h f hf
+
+
+/-- **`ear_clip_orientation`.** `isVertexEar` only accepts a vertex whose triangle
+`(p1, p2, p3)` turns the way the polygon does: for a clockwise polygon (negative shoelace area)
+the emitted triangle is clockwise or degenerate (`orient ≤ 0`), for a counter-clockwise one it is
+strictly counter-clockwise.  (`Triangulate` documents the orientation of its output as undefined;
+what the code guarantees, and what the certificate checks on every run, is that every triangle is
+oriented like the polygon — for `TriangulateMesh`, whose input loops are clockwise, that is the
+documented clockwise.)  Holds for the original strict point-in-ear test and the repaired one. -/
+theorem ear_clip_orientation (strictDiag : Bool) (l : List (P2 K)) (v : Nat)
+    (h : isVertexEar strictDiag l v = true) :
+    (isClockwise l = true → triArea2 (earTri l v) ≤ 0) ∧
+    (isClockwise l = false → 0 < triArea2 (earTri l v)) := by
+  have := isVertexEar_orient h
+  constructor
+  · intro hc; exact this.1 hc
+  · intro hc
+    by_contra hn
+    have := this.2 (not_lt.1 hn)
+    rw [hc] at this; cases this
+
+/-- Regression example for the repaired defect: in the polygon
+`(0,-2) (0,0) (7,2) (7,-6) (4,-6) (4,-3) (3,-3) (3,-2)` (after the first two ears have been cut:
+`(3,-2) (7,2) (7,-6) (4,-6) (4,-3) (3,-3)`) the vertex `(4,-3)` lies ON the diagonal of the
+candidate ear at `(7,2)`; the original strict test accepted that ear, the repaired test rejects it. -/
+example :
+    let l : List (P2 Rat) := [⟨3, -2⟩, ⟨7, 2⟩, ⟨7, -6⟩, ⟨4, -6⟩, ⟨4, -3⟩, ⟨3, -3⟩]
+    isVertexEar true l 1 = true ∧ isVertexEar false l 1 = false := by
+  decide +kernel
+
+/-- **`diagonals_cancel`.**  Add any list `ds` of diagonals, each in both directions, to the
+boundary edges `bnd` (what `triangulateMonotoneDecomp` does with the sweep's `Generated` list) and
+decompose the resulting directed-edge multiset into closed walks in ANY way (the face walk by
+smallest angle is one): the shoelace areas of the walks sum to the shoelace area of the boundary. -/
+theorem diagonals_cancel (c : Nat → P2 K) (bnd ds : List Edge) (walks : List (List Nat))
+    (h : (walks.flatMap cycleEdges).Perm (bnd ++ (ds ++ ds.map swap))) :
+    sumF (fun w => shoelace2 (w.map c)) walks = sumF (crossE c) bnd := by
+  have h1 : sumF (fun w => shoelace2 (w.map c)) walks = sumF (crossE c) (walks.flatMap cycleEdges) := by
+    rw [sumF_flatMap]; congr 1; funext w; exact shoelace2_walk c w
+  rw [h1, sumF_perm _ h, sumF_append, sumF_map_swap_cancel c _ (crossE_antisymm c), add_zero]
+
+/-- Non-vacuity: the square `0 1 2 3` with the diagonal `(0,2)` splits into the walks `0 1 2`
+and `0 2 3`. -/
+example : ([[0, 1, 2], [0, 2, 3]].flatMap cycleEdges).Perm
+    ([(0, 1), (1, 2), (2, 3), (3, 0)] ++ ([(0, 2)] ++ [(0, 2)].map swap)) := by
+  decide
+
+/-! ## The sweep's vertex classification (`triangulateSweepState.VertexType`) -/
+
+/-- **`sweep_types_exhaustive`.**  With pairwise distinct abscissae of a vertex and its two
+neighbours and a proper turn (`orient ≠ 0`) the classification is defined (no panic) … -/
+theorem sweep_types_exhaustive (p v n : P2 K) (h1 : p.x ≠ n.x) (h2 : p.x ≠ v.x) (h3 : n.x ≠ v.x)
+    (h0 : orient p v n ≠ 0) : ∃ t, vertexType p v n = some t := by
+  by_cases hl : v.x < p.x ∧ v.x < n.x
+  · rw [vertexType_left hl.1 hl.2 h1, if_neg h0]; split <;> exact ⟨_, rfl⟩
+  · by_cases hr : p.x < v.x ∧ n.x < v.x
+    · rw [vertexType_right hr.1 hr.2 h1, if_neg h0]; split <;> exact ⟨_, rfl⟩
+    · rw [vertexType_chain h1 h2 h3 hl hr]; split <;> exact ⟨_, rfl⟩
+
+/-- … and it is the textbook one: a vertex with both neighbours to its right is a *start* vertex
+iff the boundary turns clockwise there (convex for a clockwise loop) and a *split* vertex iff it
+turns counter-clockwise (reflex); with both neighbours to its left, *end* iff clockwise, *merge*
+iff counter-clockwise; otherwise it is a chain vertex, *lower* iff the boundary runs right to left.
+The slope comparisons of `sortedEdge.Compare` are exactly these orientation signs. -/
+theorem sweep_types_turn (p v n : P2 K) (h1 : p.x ≠ n.x) :
+    (v.x < p.x → v.x < n.x →
+      (vertexType p v n = some .start ↔ orient p v n < 0) ∧
+      (vertexType p v n = some .split ↔ 0 < orient p v n)) ∧
+    (p.x < v.x → n.x < v.x →
+      (vertexType p v n = some .end ↔ orient p v n < 0) ∧
+      (vertexType p v n = some .merge ↔ 0 < orient p v n)) := by
+  constructor
+  · intro hp hn
+    rw [vertexType_left hp hn h1]
+    rcases lt_trichotomy (orient p v n) 0 with h | h | h
+    · simp [h, h.ne, not_lt.2 h.le]
+    · simp [h]
+    · simp [h, h.ne', not_lt.2 h.le]
+  · intro hp hn
+    rw [vertexType_right hp hn h1]
+    rcases lt_trichotomy (orient p v n) 0 with h | h | h
+    · simp [h, h.ne, not_lt.2 h.le]
+    · simp [h]
+    · simp [h, h.ne', not_lt.2 h.le]
+
+/-! ## Planar 3-D faces -/
+
+/-- **Chart independence.**  Under an affine map of the plane every orientation determinant is
+multiplied by the determinant of the linear part.  `TriangulateFace` triangulates the face in the
+chart `(basis1·(p−p0), basis2·(p−p0))`, the driver evaluates the certificate in the exact chart
+obtained by dropping a coordinate; both are affine charts of the same plane, related by an
+invertible affine map, so non-degeneracy, consistent orientation of all triangles with the polygon
+and the area equation (all statements about signs and ratios of `orient`) transfer. -/
+theorem orient_affine (a b cc d e f : K) (p q r : P2 K) :
+    orient (affine a b cc d e f p) (affine a b cc d e f q) (affine a b cc d e f r)
+      = (a * d - b * cc) * orient p q r :=
+  orient_affine' a b cc d e f p q r
+
+/-! ## `ProfileMesh` -/
+
+/-- **`profile_volume_eq_area_times_height`.**  If the cap triangles `tris` glue to a region with
+boundary `bnd` (the unrefined edge conditions of the certificate: what `edgesOkG false` checks),
+then `ProfileMesh`'s soup — bottom caps, top caps with two corners swapped, and one quad on every
+cap edge that no second cap triangle shares — encloses the signed volume (divergence theorem,
+`vol6 = 6·volume`) `(maxZ − minZ) · area`, where `area = −½ Σ orient` is the (clockwise-positive)
+area of the caps, which by `triangulation_certificate_sound` is the region's shoelace area. -/
+theorem profile_volume_eq_area_times_height (c : Nat → P2 K) (z0 z1 : K) (bnd : List Edge) (tris : List Tri)
+    (h : Glued bnd (dirEdges tris)) :
+    vol6 (lift c z0 z1) (profileSoup tris) = 6 * ((z1 - z0) * (-(sumF (crossE c) bnd) / 2)) := by
+  have hp := unshared_perm_boundary h
+  have hs : sumF (crossE c) (unsharedEdges tris) = sumF (triOrient c) tris := by
+    rw [sumF_perm _ hp, ← glued_sum h (crossE c) (crossE_antisymm c), sumF_dirEdges_cross]
+  rw [profileSoup_eq_on, vol6_profileSoupOn c z0 z1 tris _ hs,
+    ← sumF_dirEdges_cross, glued_sum h (crossE c) (crossE_antisymm c)]
+  ring
+
+/-- Non-vacuity: the unit square extruded from z=0 to z=3 has `6·volume = 18`. -/
+example :
+    let c : Nat → P2 Rat := fun i => ([⟨0, 0⟩, ⟨0, 1⟩, ⟨1, 1⟩, ⟨1, 0⟩] : List (P2 Rat)).getD i ⟨0, 0⟩
+    gluedOk (loopEdges [4]) (dirEdges [(0, 1, 2), (0, 2, 3)]) = true ∧
+    vol6 (lift c 0 3) (profileSoup [(0, 1, 2), (0, 2, 3)]) = 18 ∧
+    closedManifold (profileSoup [(0, 1, 2), (0, 2, 3)]) = true := by
+  decide +kernel
+
+/-- **`profile_mesh_manifold_partial`.**  Manifoldness of the extruded soup is *decided per
+instance* by the proved decider of the shared surface library: whenever the driver's
+`closedManifold (…)` evaluates to `true` on a real `ProfileMesh` output, that output is a
+closed, consistently oriented manifold (`ClosedManifold`: every directed edge matched by its
+reverse exactly once, every vertex fan a single cycle, no degenerate face).
+What is missing for the universal statement "certified caps ⇒ `ClosedManifold (profileSoup tris)`":
+the counting argument over the three edge classes (cap, vertical, quad diagonal) and the vertex
+fans (cap link path + two side triangles per boundary edge) is not mechanised. -/
+theorem profile_mesh_manifold_partial (soup : List Tri) (h : closedManifold soup = true) :
+    ClosedManifold soup :=
+  (closedManifold_iff soup).1 h
 
 end M3d.C14
